@@ -391,11 +391,11 @@ Proof.
     + unfold lenN in Hov. fold n in Hov. nia.
 Qed.
 
-(* Rotor::new_fa1: two instances whose PartitionSampler::new shuffled differently assign different relays
-   to the same shred (stakes 255, 255, 245, 245: two fallback seats) *)
-Lemma rotor_fa1_instances_disagree_refuted :
+(* Rotor::new_fa1 in the pinned tree: two instances whose PartitionSampler::new shuffled differently (thread
+   RNG) assigned different relays to the same shred (stakes 255, 255, 245, 245: two fallback seats) *)
+Lemma rotor_fa1_instances_disagree_pinned_refuted :
   exists stakes o1 o2 sm1 sm2 slot slice shred,
-    rotor_new_fa1 stakes o1 = COk sm1 /\ rotor_new_fa1 stakes o2 = COk sm2 /\
+    rotor_new_fa1_pinned stakes o1 = COk sm1 /\ rotor_new_fa1_pinned stakes o2 = COk sm2 /\
     (exists r1 r2, rotor_relay (stdrng 4) sm1 slot slice shred = RRelay r1 /\
                    rotor_relay (stdrng 4) sm2 slot slice shred = RRelay r2 /\ r1 <> r2).
 Proof.
@@ -641,26 +641,45 @@ Proof.
 Qed.
 
 (* ------------------------------------------------------------------ *)
-(* Rotor::new: the relay as a function of the triple                   *)
+(* Rotor::new / Rotor::new_fa1: the relay as a function of the triple   *)
 (* ------------------------------------------------------------------ *)
-Theorem rotor_new_relay_is_a_function_of_the_triple : forall (rng : list N -> stream) stakes sm1 sm2 slot slice shred,
-  rotor_new stakes = COk sm1 -> rotor_new stakes = COk sm2 ->
-  rotor_relay rng sm1 slot slice shred = rotor_relay rng sm2 slot slice shred.
-Proof. intros rng stakes sm1 sm2 slot slice shred H1 H2. rewrite H1 in H2. inversion H2. reflexivity. Qed.
+(* both constructors of the current tree *)
+Definition rotor_ctor (fa1 : bool) (stakes : list N) : cres sampler :=
+  if fa1 then rotor_new_fa1 stakes else rotor_new stakes.
 
-Theorem rotor_new_relay_in_range : forall (rng : list N -> stream) stakes sm slot slice shred r,
-  rotor_new stakes = COk sm -> lenN stakes < W64 ->
+Theorem rotor_relay_is_a_function_of_the_triple : forall (rng : list N -> stream) fa1 stakes sm1 sm2 slot slice shred,
+  rotor_ctor fa1 stakes = COk sm1 -> rotor_ctor fa1 stakes = COk sm2 ->
+  rotor_relay rng sm1 slot slice shred = rotor_relay rng sm2 slot slice shred.
+Proof. intros rng fa1 stakes sm1 sm2 slot slice shred H1 H2. rewrite H1 in H2. inversion H2. reflexivity. Qed.
+
+Lemma rotor_ctor_as_construct fa1 stakes sm :
+  rotor_ctor fa1 stakes = COk sm ->
+  exists st order, quorum_size st = TOTAL_SHREDS /\ valid_order stakes order /\
+                   construct Current st stakes order = COk sm /\ fa2_counts_ok sm.
+Proof.
+  intros H. destruct fa1; cbn [rotor_ctor] in H; unfold rotor_new_fa1, rotor_new in H;
+    apply construct_current_as_construct in H; destruct H as [o [Ho Hc]].
+  - exists (StFA1Part TOTAL_SHREDS), o. repeat split; auto.
+    cbn [construct] in Hc. destruct (fa1_prepare Current stakes TOTAL_SHREDS); [|discriminate].
+    destruct (partition_new _ _); inversion Hc. exact I.
+  - exists (StStake TOTAL_SHREDS), o. repeat split; auto.
+    cbn [construct] in Hc. destruct (windex_ok stakes); inversion Hc. exact I.
+Qed.
+
+Theorem rotor_relay_in_range : forall (rng : list N -> stream) fa1 stakes sm slot slice shred r,
+  rotor_ctor fa1 stakes = COk sm -> lenN stakes < W64 ->
   rotor_relay rng sm slot slice shred = RRelay r -> r < lenN stakes.
 Proof.
-  intros rng stakes sm slot slice shred r Hc Hn H. unfold rotor_relay, rotor_relays in H.
+  intros rng fa1 stakes sm slot slice shred r Hc Hn H. unfold rotor_relay, rotor_relays in H.
   destruct (sample_quorum sm (rng (rotor_seed slot slice))) as [q rest| |] eqn:E; try discriminate.
   destruct (nth_error q (N.to_nat shred)) as [v|] eqn:En; inversion H; subst.
-  pose proof (members_in_range _ _ _ _ _ _ _ Hc (Forall_nil _) Hn E) as Hall.
+  apply rotor_ctor_as_construct in Hc. destruct Hc as [st [o [_ [Ho [Hc _]]]]].
+  pose proof (members_in_range _ _ _ _ _ _ _ _ Hc Ho Hn E) as Hall.
   rewrite Forall_forall in Hall. apply Hall. eapply nth_error_In; eauto.
 Qed.
 
-Theorem rotor_model_exactly_once : forall (rng : list N -> stream) stakes sm slot slice shred relay,
-  rotor_new stakes = COk sm -> lenN stakes < W64 ->
+Theorem rotor_model_exactly_once : forall (rng : list N -> stream) fa1 stakes sm slot slice shred relay,
+  rotor_ctor fa1 stakes = COk sm -> lenN stakes < W64 ->
   rotor_relay rng sm slot slice shred = RRelay relay ->
   let n := lenN stakes in
   let leader := leader_of n slot in
@@ -670,11 +689,25 @@ Theorem rotor_model_exactly_once : forall (rng : list N -> stream) stakes sm slo
     (forall v, n <= v -> count_occ_N deliveries v = 0) /\
     (forall own, own <> relay -> rotor_forward n own relay leader = []).
 Proof.
-  intros rng stakes sm slot slice shred relay Hc Hn Hr n leader.
-  assert (Hrel : relay < n) by (eapply rotor_new_relay_in_range; eauto).
+  intros rng fa1 stakes sm slot slice shred relay Hc Hn Hr n leader.
+  assert (Hrel : relay < n) by (eapply rotor_relay_in_range; eauto).
   assert (Hl : leader < n) by (unfold leader, leader_of; apply N.mod_lt; intros C; rewrite C in Hrel; destruct relay; discriminate).
   destruct (rotor_exactly_one_relay_broadcast n leader relay Hrel Hl) as [d [H1 [H2 [H3 [H4 H5]]]]].
   exists d. repeat split; auto. rewrite H3. destruct (leader =? relay); [apply N.le_refl | apply N.le_0_l].
+Qed.
+
+(* sample_relay indexes the committee by the shred index: defined for every shred of a slice *)
+Theorem rotor_relay_defined_for_every_shred : forall (rng : list N -> stream) fa1 stakes sm slot slice q r shred,
+  rotor_ctor fa1 stakes = COk sm ->
+  rotor_relays rng sm slot slice = Ok q r -> shred < TOTAL_SHREDS ->
+  exists v, rotor_relay rng sm slot slice shred = RRelay v /\ nth_error q (N.to_nat shred) = Some v.
+Proof.
+  intros rng fa1 stakes sm slot slice q r shred Hc Hq Hs.
+  apply rotor_ctor_as_construct in Hc. destruct Hc as [st [o [Hk [_ [Hc Hfa]]]]].
+  unfold rotor_relay. rewrite Hq. unfold rotor_relays in Hq.
+  pose proof (quorum_len _ _ _ _ _ _ _ _ Hc Hfa Hq) as Hlen. rewrite Hk in Hlen.
+  destruct (nth_error q (N.to_nat shred)) as [v|] eqn:E; [exists v; auto|].
+  apply nth_error_None in E. unfold lenN in Hlen. lia.
 Qed.
 
 Theorem cache_is_memo_any : forall (K V : Type) (keq : K -> K -> bool) (f : K -> V),
@@ -685,16 +718,3 @@ Theorem cache_is_memo_any : forall (K V : Type) (keq : K -> K -> bool) (f : K ->
     cache_valid f c ->
     memo_run keq f keeps c ks = map f ks.
 Proof. intros K V keq f H. exact (cache_is_memo keq H f). Qed.
-
-(* sample_relay indexes the committee by the shred index: defined for every shred of a slice *)
-Theorem rotor_relay_defined_for_every_shred : forall (rng : list N -> stream) st stakes order sm slot slice q r shred,
-  quorum_size st = TOTAL_SHREDS -> construct st stakes order = COk sm -> fa2_counts_ok sm ->
-  rotor_relays rng sm slot slice = Ok q r -> shred < TOTAL_SHREDS ->
-  exists v, rotor_relay rng sm slot slice shred = RRelay v /\ nth_error q (N.to_nat shred) = Some v.
-Proof.
-  intros rng st stakes order sm slot slice q r shred Hk Hc Hfa Hq Hs.
-  unfold rotor_relay. rewrite Hq. unfold rotor_relays in Hq.
-  pose proof (quorum_len _ _ _ _ _ _ _ Hc Hfa Hq) as Hlen. rewrite Hk in Hlen.
-  destruct (nth_error q (N.to_nat shred)) as [v|] eqn:E; [exists v; auto|].
-  apply nth_error_None in E. unfold lenN in Hlen. lia.
-Qed.
